@@ -1,5 +1,189 @@
+/-
+  Line-protocol driver of the application model (`rigodriver app`). See DESIGN.md §2.1 and
+  harness/internal/appdrv for the format. One operation per line, one output line per operation.
+-/
+import Rigo.Block
 import RigoDriver.Util
+open Rigo
+
 namespace RigoDriver.App
-/-- stub: replaced by the component's line-protocol driver -/
-def run : IO Unit := pure ()
+
+def hx (s : String) : String := if s == "" then "-" else s
+def unhx (s : String) : String := if s == "-" then "" else s
+
+def kv (ws : List String) (key : String) : Option String :=
+  let pre := key ++ "="
+  match ws.find? (fun w => w.startsWith pre) with
+  | some w => some (String.ofList (w.toList.drop pre.length))
+  | none => none
+
+def listOf (s : String) (sep : String) : List String := if s == "-" ∨ s == "" then [] else s.splitOn sep
+
+def parseParams (s : String) (sep : String) : Option Params := do
+  match s.splitOn sep with
+  | [a, b, c, d, e, f, g, h, i, j, k, l, m, n, o, p, q, r, v] =>
+    pure { maxValidatorCnt := ← a.toInt?, minValidatorStake := ← b.toNat?, minDelegatorStake := ← c.toNat?,
+           rewardPerPower := ← d.toNat?, lazyRewardBlocks := ← e.toInt?, lazyApplyingBlocks := ← f.toInt?,
+           gasPrice := ← g.toNat?, minTrxGas := ← h.toNat?, maxTrxGas := ← i.toNat?, maxBlockGas := ← j.toNat?,
+           minVotingPeriodBlocks := ← k.toInt?, maxVotingPeriodBlocks := ← l.toInt?, minSelfStakeRatio := ← m.toInt?,
+           maxUpdatableStakeRatio := ← n.toInt?, maxIndividualStakeRatio := ← o.toInt?, slashRatio := ← p.toInt?,
+           signedBlocksWindow := ← q.toInt?, minSignedBlocks := ← r.toInt?, version := ← v.toInt? }
+  | _ => none
+
+def optNat (s : String) : Option (Option Nat) := if s == "nil" then some none else s.toNat?.map some
+
+def parsePOpt (s : String) : Option POpt := do
+  match s.splitOn "_" with
+  | [a, b, c, d, e, f, g, h, i, j, k, l, m, n, o, p, q, r, v] =>
+    pure { maxValidatorCnt := ← a.toInt?, minValidatorStake := ← optNat b, minDelegatorStake := ← optNat c,
+           rewardPerPower := ← optNat d, lazyRewardBlocks := ← e.toInt?, lazyApplyingBlocks := ← f.toInt?,
+           gasPrice := ← optNat g, minTrxGas := ← h.toNat?, maxTrxGas := ← i.toNat?, maxBlockGas := ← j.toNat?,
+           minVotingPeriodBlocks := ← k.toInt?, maxVotingPeriodBlocks := ← l.toInt?, minSelfStakeRatio := ← m.toInt?,
+           maxUpdatableStakeRatio := ← n.toInt?, maxIndividualStakeRatio := ← o.toInt?, slashRatio := ← p.toInt?,
+           signedBlocksWindow := ← q.toInt?, minSignedBlocks := ← r.toInt?, version := ← v.toInt? }
+  | _ => none
+
+def parseVoteOpt (s : String) : Option VoteOpt :=
+  match s.splitOn "~" with
+  | [raw, pv, pa] => some { raw := unhx raw, parsedV := if pv == "bad" then none else parsePOpt pv,
+                            parsedA := if pa == "bad" then none else parsePOpt pa }
+  | _ => none
+
+def parsePayload (s : String) : Option Payload :=
+  match s.splitOn ":" with
+  | ["none"] => some .none
+  | ["unstk", h] => some (.unstaking (unhx h))
+  | ["wd", a] => a.toNat?.map .withdraw
+  | ["prop", msg, st, pe, ap, ot, opts] => do
+    let os ← (listOf opts ";").mapM parseVoteOpt
+    pure (.proposal (unhx msg) (← st.toInt?) (← pe.toInt?) (← ap.toInt?) (← ot.toInt?) os)
+  | ["vote", h, c] => c.toInt?.map (.voting (unhx h))
+  | ["contract", d] => some (.contract (unhx d))
+  | ["setdoc", n, u, nl, ul] => do pure (.setdoc (unhx n) (unhx u) (← nl.toNat?) (← ul.toNat?))
+  | _ => none
+
+def parseEvm (s : String) : Option (Option EvmOracle) :=
+  if s == "-" then some none else
+  match s.splitOn ":" with
+  | [st, fk, gu, acc, syn, cr] => do
+    let synced ← (listOf syn ";").mapM fun e =>
+      match e.splitOn "/" with
+      | [a, b, n] => do pure (a, ← b.toNat?, ← n.toNat?)
+      | _ => none
+    pure (some { ok := st == "ok", failKind := unhx fk, gasUsed := ← gu.toNat?, accessed := listOf acc ";",
+                 synced := synced, created := unhx cr })
+  | _ => none
+
+def parseTx (ws : List String) : Option TxIn := do
+  if (← kv ws "dec") == "0" then return { decodable := false }
+  pure { decodable := true, hash := unhx (← kv ws "hash"), sigOk := (← kv ws "sig") == "ok", pub := unhx (← kv ws "pub"),
+         version := ← (← kv ws "ver").toNat?, time := ← (← kv ws "time").toInt?, nonce := ← (← kv ws "nonce").toNat?,
+         from_ := unhx (← kv ws "from"), to := unhx (← kv ws "to"), amount := ← (← kv ws "amt").toNat?,
+         gas := ← (← kv ws "gas").toNat?, price := ← (← kv ws "price").toNat?, type := ← (← kv ws "type").toInt?,
+         payload := ← parsePayload (← kv ws "pl"), evm := ← parseEvm ((kv ws "evm").getD "-") }
+
+def parseGenesis (ws : List String) : Option Genesis := do
+  let holders ← (listOf (← kv ws "holders") ",").mapM fun e =>
+    match e.splitOn ":" with
+    | [a, b] => do pure (a, ← b.toNat?)
+    | _ => none
+  let vals ← (listOf (← kv ws "vals") ",").mapM fun e =>
+    match e.splitOn ":" with
+    | [p, a, w] => do pure (p, a, ← w.toInt?)
+    | _ => none
+  pure { chainId := unhx (← kv ws "chain"), params := ← parseParams (← kv ws "params") ",", holders := holders, vals := vals }
+
+def parseHeader (ws : List String) : Option Header := do
+  let votes ← (listOf (← kv ws "votes") ",").mapM fun e =>
+    match e.splitOn ":" with
+    | [a, p, sg] => do pure ({ addr := a, power := ← p.toInt?, signed := sg == "1" } : VoteIn)
+    | _ => none
+  pure { height := ← (← kv ws "h").toInt?, time := ← (← kv ws "t").toInt?, proposer := unhx (← kv ws "prop"),
+         votes := votes, evidence := listOf (← kv ws "evid") "," }
+
+/-! rendering -/
+
+def joinOr (l : List String) (sep : String) : String := if l.isEmpty then "-" else sep.intercalate l
+
+def showParams (p : Params) : String :=
+  ",".intercalate [toString p.maxValidatorCnt, toString p.minValidatorStake, toString p.minDelegatorStake,
+    toString p.rewardPerPower, toString p.lazyRewardBlocks, toString p.lazyApplyingBlocks, toString p.gasPrice,
+    toString p.minTrxGas, toString p.maxTrxGas, toString p.maxBlockGas, toString p.minVotingPeriodBlocks,
+    toString p.maxVotingPeriodBlocks, toString p.minSelfStakeRatio, toString p.maxUpdatableStakeRatio,
+    toString p.maxIndividualStakeRatio, toString p.slashRatio, toString p.signedBlocksWindow,
+    toString p.minSignedBlocks, toString p.version]
+
+def showAccount (a : Account) : String :=
+  s!"A:{hx a.addr}:{a.nonce}:{a.bal}:{hx a.code}:{hx a.name}:{hx a.doc}"
+def showStake (sep : String) (s : Stake) : String :=
+  sep.intercalate [hx s.owner, hx s.to, hx s.hash, toString s.power, toString s.start, toString s.refund]
+def showDelegatee (d : Delegatee) : String :=
+  s!"D:{hx d.addr}:{hx d.pub}:{d.self}:{d.total}:{d.slashed}:{joinOr (d.stakes.map (showStake "/")) ";"}:{joinOr (d.notSigned.map toString) ";"}"
+def showReward (r : Reward) : String :=
+  s!"R:{hx r.addr}:{r.issued}:{r.withdrawn}:{r.slashed}:{r.cumulated}:{r.height}"
+def showProposal (tag : String) (p : Proposal) : String :=
+  let voters := joinOr (p.voters.map fun v => s!"{hx v.addr}/{v.power}/{v.choice}") ";"
+  let opts := joinOr (p.options.map fun o => s!"{hx o.raw}/{o.votes}") ";"
+  let major := match p.major with | some o => s!"{hx o.raw}/{o.votes}" | none => "-"
+  s!"{tag}:{hx p.hash}:{p.start}:{p.end_}:{p.applying}:{p.total}:{p.majority}:{p.optType}:{voters}:{opts}:{major}"
+
+/-- canonical dump of the consensus view -/
+def dump (s : St) : String :=
+  let parts :=
+    (s.accts.fin.toList.map fun (_, a) => showAccount a) ++
+    (s.delegs.fin.toList.map fun (_, d) => showDelegatee d) ++
+    (s.frozen.fin.toList.map fun (_, f) => "F:" ++ showStake ":" f) ++
+    (s.rewards.fin.toList.map fun (_, r) => showReward r) ++
+    (s.props.fin.toList.map fun (_, p) => showProposal "P" p) ++
+    (s.fprops.fin.toList.map fun (_, p) => showProposal "FP" p) ++
+    (s.params.fin.toList.map fun (_, p) => "G:" ++ showParams p) ++
+    ["GA:" ++ showParams s.active,
+     "GN:" ++ (match s.pending with | some p => showParams p | none => "-"),
+     "V:" ++ joinOr (s.lastVals.map fun d => s!"{hx d.addr}/{d.total}") ";"]
+  " ".intercalate parts
+
+def showLimiter (l : Limiter) : String :=
+  s!"base={l.base} updated={l.updated} max={l.maxCnt} indi={l.indi} upd={l.upd} objs={",".intercalate (l.objs.map fun o => s!"{o.1}:{o.2}")}"
+
+def showOut (kind : String) (o : Out) : String :=
+  if o.panic ≠ "" then "panic" else
+  match kind with
+  | "begin" =>
+    let rwd := match o.issued with | some n => toString n | none => "-"
+    s!"rwd={rwd} ps={joinOr (o.punishS.map toString) ","} pg={joinOr (o.punishG.map toString) ","}"
+  | "tx" =>
+    match o.tx with
+    | some t => s!"code={t.code} kind={t.kind} gu={t.gasUsed} gw={t.gasWanted}"
+    | none => "bad"
+  | "end" =>
+    let l := (o.valUpdates.map fun (p, w) => s!"{hx p}:{w}").mergeSort (fun a b => a ≤ b)
+    "vu=" ++ joinOr l ","
+  | _ => "ok"
+
+def stepLine (s : St) (ws : List String) : St × Option String :=
+  match ws with
+  | "reset" :: _ => ({}, some "reset")
+  | "init" :: rest =>
+    match parseGenesis rest with
+    | some g => let (s', o) := step s (.init g); (s', some (showOut "init" o))
+    | none => (s, some "bad-op")
+  | "begin" :: rest =>
+    match parseHeader rest with
+    | some h => let (s', o) := step s (.begin_ h); (s', some (showOut "begin" o))
+    | none => (s, some "bad-op")
+  | "tx" :: rest =>
+    match parseTx rest, kv rest "mode" with
+    | some tx, some "d" => let (s', o) := step s (.deliver tx); (s', some (showOut "tx" o))
+    | some tx, some "c" => let (s', o) := step s (.check tx); (s', some (showOut "tx" o))
+    | _, _ => (s, some "bad-op")
+  | ["end"] => let (s', o) := step s .end_; (s', some (showOut "end" o))
+  | ["commit"] => let (s', o) := step s .commit; (s', some (showOut "commit" o))
+  | ["restart"] => let (s', o) := step s .restart; (s', some (showOut "restart" o))
+  | ["dump"] => (s, some (dump s))
+  | ["limiter"] => (s, some (showLimiter s.limiter))
+  | _ => (s, some "bad-op")
+
+def run : IO Unit := do
+  RigoDriver.loop (← IO.getStdin) (← IO.getStdout) ({} : St) stepLine
+
 end RigoDriver.App
